@@ -623,6 +623,78 @@ func TestC19_SyncWriteWouldBlockMidItem(t *testing.T) {
 	})
 }
 
+// A caller that keeps submitting items while the transport is not taking them: WriteNext reports would-block, the item
+// (or its rest) stays in the write buffer, and the next WriteNext comes without a flush in between. Everything submitted
+// must reach the transport once, in order, when it takes bytes again.
+func TestC19_SyncWriteQueuedBehindWouldBlock(t *testing.T) {
+	rec := evid.For("C19")
+	rec.SetRule(c19Rule + " || queued behind would-block: 2..40 items of mostly similar sizes (not growing) written with the blocking WriteNext over a scripted non-blocking transport that takes a few bytes or nothing per call; the caller never flushes between items (would-block is tolerated, any other error is not); at the end the buffer is flushed and the transport must hold prefix+payload of every item exactly once, in order; non-trivial = at least two items were submitted while bytes of an earlier one were still unsent")
+	vt.Check(t, 400, func(t *rapid.T) {
+		n := rapid.IntRange(2, 40).Draw(t, "nitems")
+		base := rapid.SampledFrom([]int{1, 60, 500, 508, 1000, 4000}).Draw(t, "base")
+		var items [][]byte
+		for i := 0; i < n; i++ {
+			ln := base
+			switch rapid.IntRange(0, 3).Draw(t, "vary") {
+			case 0:
+				ln = rapid.IntRange(0, base).Draw(t, "smaller")
+			case 1:
+				ln = base + rapid.IntRange(0, 8).Draw(t, "larger")
+			}
+			b := make([]byte, ln)
+			for j := range b {
+				b[j] = byte(i*29 + j*3 + 1)
+			}
+			items = append(items, b)
+		}
+		ms := memstream.New(nil)
+		src, dst := sonic.NewByteBuffer(), sonic.NewByteBuffer()
+		cc, _ := sonic.NewCodecConn[[]byte, []byte](ms, frame.NewCodec(src), src, dst)
+		behind := 0
+		var plans [][]int
+		for i, it := range items {
+			// the transport takes a little or nothing for this call
+			plan := rapid.SliceOfN(rapid.SampledFrom([]int{0, 0, 0, 1, 3, 100, 600}), 1, 3).Draw(t, "plan")
+			plan = append(plan, 0) // and then nothing more: the rest stays queued
+			plans = append(plans, plan)
+			ms.SyncWritePlan = append([]int(nil), plan...)
+			if dst.ReadLen() > 0 {
+				behind++
+			}
+			if _, err := cc.WriteNext(it); err != nil && !errors.Is(err, sonicerrors.ErrWouldBlock) {
+				t.Fatalf("WriteNext #%d (%d bytes) with %d bytes of earlier items still unsent: %v", i, len(it), dst.ReadLen(), err)
+			}
+		}
+		ms.SyncWritePlan = nil
+		for guard := 0; dst.ReadLen() > 0; guard++ {
+			if _, err := dst.WriteTo(ms); err != nil && !errors.Is(err, sonicerrors.ErrWouldBlock) {
+				t.Fatalf("final flush: %v", err)
+			}
+			if guard > 50 {
+				t.Fatalf("the write buffer still holds %d bytes after 50 flushes into a transport that accepts everything", dst.ReadLen())
+			}
+		}
+		if want := wireOf(items); !bytes.Equal(ms.Out, want) {
+			// locate the first item that is missing or damaged
+			off, bad := 0, -1
+			for i, it := range items {
+				end := off + 4 + len(it)
+				if end > len(ms.Out) || !bytes.Equal(ms.Out[off:end], want[off:end]) {
+					bad = i
+					break
+				}
+				off = end
+			}
+			t.Fatalf("the transport holds %d bytes, want %d (prefix+payload of all %d items once, in order); first difference in item #%d (%d bytes) at stream offset %d", len(ms.Out), len(want), len(items), bad, len(items[max(bad, 0)]), off)
+		}
+		var sizes []int
+		for _, it := range items {
+			sizes = append(sizes, len(it))
+		}
+		rec.Case(fmt.Sprintf("swq|%v|%v", sizes, plans), behind >= 2, []string{"sync-write-queued-behind-would-block"}, map[string]any{"kind": "sync-write-queued", "items": len(items), "submitted_behind_unsent_bytes": behind})
+	})
+}
+
 // Chains: every AsyncWriteNext is issued from the completion callback of the previous one, every AsyncReadNext likewise
 // (the natural way to stream items). After 32 nested inline completions the next operation is handed to the poller.
 func TestC19_SocketChains(t *testing.T) {
